@@ -59,7 +59,7 @@ class ClassDecl:
 class Contract:
     def __init__(self, key, params=None, returns=None, requires=(), ensures=(), raises=None,
                  modifies=(), loops=None, ghost_entry=(), ghost_exit=(), external=False, tags=(),
-                 locals=None, doc="", pure=False, handler=None, allow_escape=(), assume_on_entry=(), ghost_after=None, ghost_results=None):
+                 locals=None, doc="", pure=False, handler=None, allow_escape=(), assume_on_entry=(), ghost_after=None, ghost_results=None, yield_raises=False, ctype_model=None):
         self.key = key
         self.params = {k: parse_type(v) for k, v in (params or {}).items()}
         self.returns = parse_type(returns) if returns else None
@@ -78,13 +78,19 @@ class Contract:
         self.handler = handler          # python callable for externals that need code
         self.allow_escape = tuple(allow_escape)
         self.assume_on_entry = _clauses(assume_on_entry, self.tags)
+        self.yield_raises = yield_raises
+        self.ctype_model = ctype_model
         self.ghost_results = {k: parse_type(v) for k, v in (ghost_results or {}).items()}
         # ghost statements run after the normal return of a call to the named callee inside this function
         self.ghost_after = {k: [ast.parse(x).body for x in ([v] if isinstance(v, str) else v)] for k, v in (ghost_after or {}).items()}
 
     @property
     def qualname(self):
-        return self.key.split(":")[-1]
+        return self.key.split(":")[-1].split("#")[0]
+
+    @property
+    def variant(self):
+        return self.key.split("#")[1] if "#" in self.key else ""
 
 
 class SpecFunc:
@@ -115,6 +121,7 @@ class Registry:
     def __init__(self):
         self.classes: dict[str, ClassDecl] = {}
         self.contracts: dict[str, Contract] = {}      # full key and bare 'Class.meth' / 'func'
+        self.variants: dict[str, list] = {}           # qualname -> contracts of the same function for other argument types
         self.specfuncs: dict[str, SpecFunc] = {}
         self.inline: set[str] = set()
         self.globals: dict[str, tuple] = {}           # ghost / module globals: name -> type
@@ -132,7 +139,10 @@ class Registry:
     def contract(self, key, **kw):
         c = Contract(key, **kw)
         self.contracts[key] = c
-        self.contracts.setdefault(c.qualname, c)
+        if "#" in key:
+            self.variants.setdefault(c.qualname, []).append(c)
+        else:
+            self.contracts.setdefault(c.qualname, c)
         return c
 
     def external(self, qualname, **kw):
